@@ -304,7 +304,13 @@ def gen_consts(repo):
             'Definition exponent_decimal_points : Z := %d%%Z.\n' % vals['__EXPONENT_VECTOR_DECIMAL_POINTS__'])
 
 
-def generate(repo):
+def generators():
+    """Gen file name -> function(repo) -> text; each is run on its own so that a construct the translator does not accept in one source
+    file fails only the theorems that depend on that Gen file"""
     from harness.translator import mosek_tab, funcs
-    return {'GenSolrec.v': funcs.gen_solrec(repo), 'GenConGen.v': funcs.gen_congen(repo), 'GenMosek.v': mosek_tab.gen_mosek(repo), 'GenEcosParse.v': gen_ecos_parse(repo), 'GenProblemSolve.v': gen_problem_solve(repo),
-            'GenSettings.v': gen_settings(repo), 'GenConsts.v': gen_consts(repo)}
+    return {'GenSolrec.v': funcs.gen_solrec, 'GenConGen.v': funcs.gen_congen, 'GenMosek.v': mosek_tab.gen_mosek,
+            'GenEcosParse.v': gen_ecos_parse, 'GenProblemSolve.v': gen_problem_solve, 'GenSettings.v': gen_settings, 'GenConsts.v': gen_consts}
+
+
+def generate(repo):
+    return {name: fn(repo) for name, fn in generators().items()}
